@@ -488,7 +488,7 @@ def check_export(ctx, rep):
             continue
         for x in ws:
             idx = canon(children(x)[0])[2]
-            v = canon(children(x)[1])
+            v = expand_locals(ctx, f, canon(children(x)[1]))
             ok = False
             if v[0] == "call" and v[1] in ("round", "lround", "llround", "nearbyint") and len(v) >= 4:
                 e = v[3]
@@ -569,31 +569,50 @@ def check_spread(ctx, rep):
 
 
 def check_clamp(ctx, rep):
+    """G9, by role: the two bounds of fixed-pin positions handed to NetModel::addNet (its 3rd and 4th argument) are locals that
+    are clamped - `v = max(v, B)` resp. `v = min(v, B)` - with B the min / max bound of computePlacementArea() on the axis of the
+    topology. A topology that only forwards to a shared helper is judged on the helper, specialised for the literal it passes."""
+    from .common import forwarding_target, specialise, is_dead_under
     prog = ctx.prog
     for q, ax in (("NetModel::xTopology", "X"), ("NetModel::yTopology", "Y")):
-        f = prog.func1(CQ + q)
-        for var, fn, bound in (("minPos", "max", "areaMin"), ("maxPos", "min", "areaMax")):
-            found = False
-            for x in walk(f.body):
-                if x.get("kind") == "BinaryOperator" and x.get("opcode") == "=":
-                    l, r = canon(children(x)[0]), canon(children(x)[1])
-                    if l[0] == "var" and l[2] == var and r[0] == "call" and r[1] == fn:
-                        others = [a for a in r[3:] if a != l]
-                        if len(others) == 1:
-                            o = expand_locals(ctx, f, others[0])
-                            txt = pretty(o)
-                            if "computePlacementArea" in txt:
-                                want = ("min" if bound == "areaMin" else "max") + ax
-                                if txt.endswith("." + want):
-                                    found = True
-                                    rep.holds("G9", x, f, "%s clamped with area.%s" % (var, want))
-                                else:
-                                    found = True
-                                    rep.violation("G9", x, f, "%s clamped with %s" % (var, txt[-30:]), "expected the placement area's %s" % want,
-                                                  key="%s|%s clamp bound" % (f.short, var))
-            if not found:
-                rep.violation("G9", f.decl, f, "%s of fixed pins is not clamped to the placement area" % var,
-                              "far-away fixed pins would pull cells outside the area", key="%s|%s not clamped" % (f.short, var))
+        f0 = prog.func1(CQ + q)
+        f, env = forwarding_target(ctx, f0)
+        adds = [x for x in walk(f.body) if x.get("kind") == "CXXMemberCallExpr" and callee_info(x)["qname"] == CQ + "NetModel::addNet"
+                and len(callee_info(x)["args"]) >= 4 and not is_dead_under(x, f, env)]
+        if not adds:
+            rep.unknown("G9", f0.decl, f0, "%s: bounds of fixed pins" % f0.short, "no NetModel::addNet(cells, offsets, min, max, ...) call found (shape changed)")
+            continue
+        for call in adds:
+            args = [canon(a) for a in callee_info(call)["args"]]
+            for var, fn, bound in ((args[2], "max", "min"), (args[3], "min", "max")):
+                label = "lower" if bound == "min" else "upper"
+                if var[0] != "var":
+                    rep.unknown("G9", call, f0, "%s bound of fixed pins in %s" % (label, f0.short), "argument %s is not a local variable" % pretty(var)[:40])
+                    continue
+                found = False
+                for x in walk(f.body):
+                    if x.get("kind") == "BinaryOperator" and x.get("opcode") == "=" and not is_dead_under(x, f, env):
+                        l, r = canon(children(x)[0]), canon(children(x)[1])
+                        if l[:2] == var[:2] and r[0] == "call" and r[1] in ("min", "max", "fmin", "fmax"):
+                            others = [a for a in r[3:] if a[:2] != l[:2]]
+                            if len(others) != 1:
+                                continue
+                            o = specialise(expand_locals(ctx, f, others[0]), env)
+                            area = [t for t in subterms(o) if t[0] == "field" and str(t[1]).startswith(CQ + "Rectangle::") and
+                                    any(u[0] == "call" and str(u[1]).endswith("computePlacementArea") for u in subterms(t))]
+                            if not area:
+                                continue          # e.g. the accumulation over the pins
+                            found = True
+                            want = bound + ax
+                            got = str(area[0][1]).split("::")[-1]
+                            if r[1] in (fn, "f" + fn) and got == want and o == area[0]:
+                                rep.holds("G9", x, f0, "%s bound of fixed pins in %s clamped with area.%s" % (label, f0.short, want))
+                            else:
+                                rep.violation("G9", x, f0, "%s bound of fixed pins in %s: %s(.., %s)" % (label, f0.short, r[1], pretty(o)[-40:]),
+                                              "expected %s(.., placement area's %s)" % (fn, want), key="%s|%s clamp bound" % (f0.short, label))
+                if not found:
+                    rep.violation("G9", call, f0, "%s bound of fixed pins in %s is not clamped to the placement area" % (label, f0.short),
+                                  "far-away fixed pins would pull cells outside the area", key="%s|%s not clamped" % (f0.short, label))
 
 
 def check_p3(ctx, rep):
